@@ -153,6 +153,13 @@ func pointerLikeFields(p *Program, n *types.Named) []*types.Var {
 // freshStoreToField: does fn (or its closures) store a freshly made value into field f of an
 // object that is not the source?  Used to recognise `c := *src; c.F = make(...); copy(c.F, src.F)`.
 func freshStoreToField(p *Program, a *cloneAnalysis, fn *ssa.Function, f *types.Var) bool {
+	return freshStoreToFieldOf(p, a, fn, f, nil)
+}
+
+// freshStoreToFieldOf: as freshStoreToField, restricted to stores into the object `obj` (the local
+// struct copy itself): a fresh value given to the same field of ANOTHER object on another path of
+// the function does not un-share this copy.
+func freshStoreToFieldOf(p *Program, a *cloneAnalysis, fn *ssa.Function, f *types.Var, obj *ssa.Alloc) bool {
 	found := false
 	for _, g := range withClosures(fn) {
 		allInstrs(g, func(in ssa.Instruction) {
@@ -162,6 +169,9 @@ func freshStoreToField(p *Program, a *cloneAnalysis, fn *ssa.Function, f *types.
 			}
 			chain, root := addrChain(st.Addr)
 			if len(chain) == 0 || chain[len(chain)-1] != f || a.srcDerived(root) {
+				return
+			}
+			if obj != nil && stripLoads(root) != ssa.Value(obj) {
 				return
 			}
 			if isFreshValue(p, st.Val) && !isAppendOfSource(a, st.Val) {
